@@ -296,16 +296,6 @@ def lift_block(fb, it):
         if not m3:
             raise WeaveError(f'{fb.path}: lifted line is not `PATTERN => match X {{`: {line.strip()}')
         block = '{ ' + m3.group(1) + block + ' }'
-    skip = int(fb.opts.get('skip', 0))
-    if skip:
-        blines = block.split('\n')
-        pat = re.compile(r'^\s*let (mut )?(\w+) = \2\.compile\(prg, env, circuit\);\s*$')
-        for j in range(1, 1 + skip):
-            if j >= len(blines) or not pat.match(blines[j]):
-                raise WeaveError(f'{fb.path}: statement {j} of the lifted block is not an operand evaluation: '
-                                 + (blines[j].strip() if j < len(blines) else '<eof>'))
-            blines[j] = ''
-        block = '\n'.join(blines)
     bind = fb.opts.get('bind')
     if bind:
         # R5c: the first statement of the block must be the single-line `let NAME = EXPR;` and is dropped: NAME is a parameter of
@@ -315,6 +305,22 @@ def lift_block(fb, it):
             raise WeaveError(f'{fb.path}: first statement of the lifted block is not `let {bind} = ..;`: '
                              + (blines[1].strip() if len(blines) > 1 else '<eof>'))
         blines[1] = ''
+        block = '\n'.join(blines)
+    skip = int(fb.opts.get('skip', 0))
+    if skip:
+        blines = block.split('\n')
+        pat = re.compile(r'^\s*let (mut )?(\w+) = \2\.compile\(prg, env, circuit\);\s*$')
+        j, done = 1, 0
+        while done < skip:
+            if j < len(blines) and not blines[j].strip():
+                j += 1      # (a statement dropped by bind=)
+                continue
+            if j >= len(blines) or not pat.match(blines[j]):
+                raise WeaveError(f'{fb.path}: statement {j} of the lifted block is not an operand evaluation: '
+                                 + (blines[j].strip() if j < len(blines) else '<eof>'))
+            blines[j] = ''
+            j += 1
+            done += 1
         block = '\n'.join(blines)
     params = ' '.join(' '.join(l.split()) for l, _ in fb.lift.get('params', []))
     ret = fb.lift.get('returns')
